@@ -2,6 +2,7 @@
     strings, per-type payload round-trips, the whole-dataset round-trip. *)
 From Ferrous Require Import Base.Bytes Model.Resp Model.Types Model.Strings Model.Rdb.
 From Ferrous Require Import Proofs.BytesFacts.
+From Ferrous Require Generated.
 Open Scope Z_scope.
 
 (** ---- the reader monad ---- *)
@@ -1694,3 +1695,103 @@ Proof.
   - apply (load_loop_ok (len b) HL now wall _ 0 ds0 s1 H1).
   - apply H1.
 Qed.
+
+(** ------------------------------------------------------------------ *)
+(** * C10 (1): the background-save flag *)
+Definition flag_inv (s : pstate) : Prop :=
+  ps_flag s = match ps_running s with Some _ => true | None => false end.
+Lemma ps_step_inv s e : flag_inv s -> flag_inv (ps_step s e).
+Proof.
+  unfold flag_inv. intros H. destruct e as [a|a|]; cbn [ps_step].
+  - exact H.
+  - destruct (ps_flag s) eqn:E; [rewrite E; exact H | reflexivity].
+  - destruct (ps_running s) eqn:Er; [reflexivity | rewrite Er; exact H].
+Qed.
+Lemma ps_hist_inv hist : forall s, flag_inv s -> flag_inv (fold_left ps_step hist s).
+Proof. induction hist as [|e h IH]; intros s H; cbn [fold_left]; [exact H | apply IH, ps_step_inv, H]. Qed.
+(** whenever no save is running the flag is clear *)
+Lemma flag_clear_when_idle hist d :
+  let s := fold_left ps_step hist (ps_init d) in ps_running s = None -> ps_flag s = false.
+Proof.
+  intros s Hr. pose proof (ps_hist_inv hist (ps_init d) eq_refl) as H. fold s in H.
+  unfold flag_inv in H. now rewrite Hr in H.
+Qed.
+(** hence a later bgsave is accepted, and when its thread ends undisturbed the dump is exactly
+    its complete output and the flag is clear again *)
+Lemma later_bgsave_works hist d ws :
+  let s := fold_left ps_step hist (ps_init d) in
+  ps_running s = None ->
+  let a := {| a_writes := ws; a_failat := None; a_open_fails := false; a_rename_fails := false |} in
+  let s1 := ps_step s (EvBgStart a) in
+  ps_running s1 = Some a /\
+  let s2 := ps_step s1 EvBgEnd in
+  dk_dump (ps_disk s2) = Some (concat ws) /\ ps_flag s2 = false /\ ps_running s2 = None.
+Proof.
+  intros s Hr a s1. pose proof (flag_clear_when_idle hist d Hr) as Hf. fold s in Hf.
+  unfold s1. cbn [ps_step]. rewrite Hf. cbn [ps_running]. split; [reflexivity|].
+  cbn [ps_step ps_running ps_disk ps_flag]. unfold run_attempt, a. cbn [a_writes a_failat a_open_fails a_rename_fails].
+  rewrite good_save. repeat split.
+Qed.
+(** the dump stays complete over every history of foreground and background saves *)
+Lemma ps_dump_complete hist : forall d0,
+  let s := fold_left ps_step hist (ps_init d0) in
+  dk_dump (ps_disk s) = dk_dump d0 \/
+  exists a, In a (flat_map ev_attempts hist) /\ dk_dump (ps_disk s) = Some (concat (a_writes a)).
+Proof.
+  intros d0.
+  assert (G : forall h s0,
+    (forall a, ps_running s0 = Some a -> True) ->
+    let s := fold_left ps_step h s0 in
+    dk_dump (ps_disk s) = dk_dump (ps_disk s0) \/
+    exists a, (In a (flat_map ev_attempts h) \/ ps_running s0 = Some a) /\ dk_dump (ps_disk s) = Some (concat (a_writes a))).
+  { induction h as [|e h IH]; intros s0 _; cbn [fold_left flat_map].
+    - left. reflexivity.
+    - specialize (IH (ps_step s0 e) (fun _ _ => I)). cbn zeta in IH.
+      destruct e as [a|a|]; cbn [ps_step ev_attempts app] in *.
+      + destruct IH as [H|[a' [[Hin|Hrun] H]]].
+        * cbn [ps_disk] in H. destruct (run_attempt_cases (ps_disk s0) a) as [C|C].
+          -- left. congruence.
+          -- right. exists a. split; [left; now left | congruence].
+        * right. exists a'. split; [left; now right | exact H].
+        * right. exists a'. split; [right; exact Hrun | exact H].
+      + destruct (ps_flag s0).
+        * destruct IH as [H|[a' [[Hin|Hrun] H]]]; [left; exact H | right; exists a'; split; [left; now right | exact H] | right; exists a'; split; [right; exact Hrun | exact H]].
+        * destruct IH as [H|[a' [[Hin|Hrun] H]]]; cbn [ps_disk ps_running] in *.
+          -- left. exact H.
+          -- right. exists a'. split; [left; now right | exact H].
+          -- right. exists a'. inversion Hrun; subst. split; [left; now left | exact H].
+      + destruct (ps_running s0) as [a0|] eqn:Er.
+        * destruct IH as [H|[a' [[Hin|Hrun] H]]]; cbn [ps_disk ps_running] in *.
+          -- destruct (run_attempt_cases (ps_disk s0) a0) as [C|C].
+             ++ left. congruence.
+             ++ right. exists a0. split; [right; reflexivity | congruence].
+          -- right. exists a'. split; [left; exact Hin | exact H].
+          -- discriminate.
+        * destruct IH as [H|[a' [[Hin|Hrun] H]]]; [left; exact H | right; exists a'; split; [left; exact Hin | exact H] | rewrite Er in Hrun; discriminate]. }
+  intros s. destruct (G hist (ps_init d0) (fun _ _ => I)) as [H|[a [[Hin|Hrun] H]]].
+  - left. exact H.
+  - right. exists a. split; assumption.
+  - discriminate.
+Qed.
+
+(** the flag discipline the state machine [ps_step] assumes, read off rdb.rs on every run *)
+Lemma gen_bgsave_flag_discipline :
+  Generated.rdb_bgsave_sets_flag_before_spawn = true /\ Generated.rdb_bgsave_clears_flag_after_match = true.
+Proof. split; reflexivity. Qed.
+
+(** ------------------------------------------------------------------ *)
+(** * C10 (2): value/TTL of one key under a concurrent save *)
+(** the value written is the key's value at one instant (the [get]); with no client command on
+    the key between the two reads the pair (value, deadline) is the key's at that instant *)
+Lemma snapshot_value_from_one_instant at_get between v dl :
+  snapshot_key at_get between = Some (v, dl) -> exists dl0, at_get = Some (v, dl0).
+Proof.
+  unfold snapshot_key. destruct at_get as [[v0 dl0]|]; [|discriminate].
+  destruct (fold_left cstep between (Some (v0, dl0))) as [[v1 dl1]|]; intros H; inversion H; subst; eauto.
+Qed.
+Lemma snapshot_quiet at_get : snapshot_key at_get [] = at_get.
+Proof. destruct at_get as [[v dl]|]; reflexivity. Qed.
+(** more generally: no tear when the commands in between leave the key as it was *)
+Lemma snapshot_consistent_if_unchanged at_get between :
+  fold_left cstep between at_get = at_get -> snapshot_key at_get between = at_get.
+Proof. intros H. unfold snapshot_key. rewrite H. destruct at_get as [[v dl]|]; reflexivity. Qed.
